@@ -431,6 +431,25 @@ impl Ctx<'_> {
 				let r = catch(|| { let mut q = p.clone(); q.add_border(n(3), n(4), n(5), n(6)); q });
 				resp(r, show_pyr)
 			}
+			"p_geo" => {
+				let p = parse_pyr(t[2]);
+				let f = |i: usize| f64::from_bits(t[i].parse::<u64>().unwrap());
+				let g = GeoBBox(f(3), f(4), f(5), f(6));
+				let valid = g.0 >= -180.0 && g.1 >= -90.0 && g.2 <= 180.0 && g.3 <= 90.0 && g.0 <= g.2 && g.1 <= g.3;
+				let r = catch(|| { let mut q = p.clone(); q.intersect_geo_bbox(&g); q });
+				match &r {
+					Ok(q) => {
+						// per level: the set intersection with the tile box of the geo box at that level
+						let ok = (0..32usize).all(|z| match TileBBox::from_geo(z as u8, &g) {
+							Ok(gb) => den(&q.level_bbox[z]) == r_isect(den(&p.level_bbox[z]), den(&gb)),
+							Err(_) => false,
+						});
+						if !ok { self.fail("p_geo", line, "intersect_geo_bbox is not the per-level intersection with from_geo(level, box)".into(), json!({})); } else { self.pass(); }
+					}
+					Err(_) => { if valid { self.fail("p_geo", line, "panic on a valid geo box".into(), json!({"kind": "panic"})); } else { self.pass(); } }
+				}
+				resp(r, show_pyr)
+			}
 			"g_from" => {
 				let z = n(2) as u8;
 				let f = |i: usize| f64::from_bits(t[i].parse::<u64>().unwrap());
@@ -662,6 +681,18 @@ pub fn run(args: &Args) {
 		cx.case(format!("C15 p_flip {sp}"), true);
 		cx.case(format!("C15 p_swap {sp}"), true);
 		cx.case(format!("C15 p_border {sp} {} {} {} {}", rng.below(3), rng.below(3), rng.below(300), rng.below(3)), true);
+		{
+			// geographic clipping of pyramids that start above zoom 0 / have zoom gaps / mixed empties
+			let (a, b) = (rng.below(360_000_000) as f64 / 1e6 - 180.0, rng.below(360_000_000) as f64 / 1e6 - 180.0);
+			let (c, d) = (rng.below(170_000_000) as f64 / 1e6 - 85.0, rng.below(170_000_000) as f64 / 1e6 - 85.0);
+			let mut pz = TileBBoxPyramid::new_full(rng.range(3, 12) as u8);
+			pz.set_zoom_min(rng.below(4) as u8);
+			if rng.chance(1, 2) { let gap = rng.range(1, 6) as usize; pz.level_bbox[gap].set_empty(); }
+			for spx in [&sp, &show_pyr(&pz)] {
+				cx.case(format!("C15 p_geo {spx} {} {} {} {}", bits(a.min(b)), bits(c.min(d)), bits(a.max(b)), bits(c.max(d))), true);
+			}
+			cx.case(format!("C15 p_geo {} {} {} {} {}", show_pyr(&pz), bits(10.0), bits(10.0), bits(5.0), bits(5.0)), true); // reversed: documented panic site
+		}
 	}
 	cx.case("C15 p_empty".into(), true);
 	for z in [0, 5, 31, 40] { cx.case(format!("C15 p_full {z}"), true); }
